@@ -111,7 +111,7 @@ class JFuzz:
     def params(self, d, sc_inner):
         r, a = self.r, self.ast
         ps = []
-        k = r.randint(0, 2)
+        k = r.choice([0, 1, 1, 2, 2, 2, 3, 4, 5, 6])       # 4 and more: a nested function then needs a generated FunctionN interface
         for i in range(k):
             va = i == k - 1 and r.random() < 0.3
             pt = self.array_ty() if va and r.random() < 0.9 else self.ty()
